@@ -196,6 +196,8 @@ struct Walk<'a> {
     in_list_arm: bool,
     /// lists something has been taken out of since the function began: no longer as long as the parameter they came from
     tainted: Vec<String>,
+    /// `let n = x.len();`: (n, root of x)
+    len_alias: Vec<(String, String)>,
 }
 
 fn int_lit(e: &syn::Expr) -> Option<usize> {
@@ -381,6 +383,10 @@ impl Walk<'_> {
                 let len_of = |e: &syn::Expr| -> Option<String> {
                     match e {
                         syn::Expr::MethodCall(m) if m.method == "len" && m.args.is_empty() => self.root_of(&m.receiver).map(|r| r.text),
+                        syn::Expr::Path(p) if p.path.segments.len() == 1 => {
+                            let x = p.path.segments[0].ident.to_string();
+                            self.len_alias.iter().rev().find(|(n, _)| *n == x).map(|(_, r)| r.clone())
+                        }
                         _ => None,
                     }
                 };
@@ -430,6 +436,7 @@ impl Walk<'_> {
     }
     fn shorten(&mut self, root: &str) {
         self.tainted.push(root.to_string());
+        self.len_alias.retain(|(_, r)| r != root);
         self.facts.retain(|(t, _)| t != root);
         self.shorter.retain(|(a, b)| a != root && b != root);
     }
@@ -496,6 +503,16 @@ impl<'ast> Visit<'ast> for Walk<'_> {
             },
             _ => None,
         };
+        if let (Some(name), Some(init)) = (&name, &l.init) {
+            self.len_alias.retain(|(n, _)| n != name);
+            if let syn::Expr::MethodCall(m) = &*init.expr {
+                if m.method == "len" && m.args.is_empty() {
+                    if let Some(r) = self.root_of(&m.receiver) {
+                        self.len_alias.push((name.clone(), r.text));
+                    }
+                }
+            }
+        }
         if let Some(name) = name {
             // a shadowed name: facts about the old one are about another list
             let fresh = Root { text: format!("{name}'{}", self.lets.len()), param: None };
@@ -677,7 +694,7 @@ pub fn tclistops(repo: &Path) -> Result<String, String> {
         calls = vec![];
         let mut next = helpers.clone();
         for f in &funcs {
-            let mut w = Walk { f, helpers: &helpers, lets: vec![], facts: vec![], shorter: vec![], sites: vec![], calls: vec![], forwards: vec![], in_list_arm: false, tainted: vec![] };
+            let mut w = Walk { f, helpers: &helpers, lets: vec![], facts: vec![], shorter: vec![], sites: vec![], calls: vec![], forwards: vec![], in_list_arm: false, tainted: vec![], len_alias: vec![] };
             w.visit_block(&f.block);
             for (i, need) in &w.forwards {
                 let e = next.entry((f.name.clone(), *i)).or_insert(0);
